@@ -37,8 +37,11 @@ func ExploreJob(property string, job Job, deadline time.Time, ex *vrt.Explorer, 
 		res.Violations = append(res.Violations, hv)
 		return false
 	}
+	if ex.JobBudget == 0 && !replay {
+		ex.JobBudget = 25000
+	}
 	children := ex.Explore(job.Prefix, job.Split)
-	res.Children = children
+	res.Children = append(children, ex.Deferred...)
 	res.Add("execs", int64(ex.Execs))
 	res.Add("steps", int64(ex.Steps))
 	res.Add("nodes", int64(ex.Nodes))
